@@ -75,7 +75,7 @@ def run(ctx, b, broken):
     su = Suite(ctx, b, broken, "C16")
     ks = [4, 8, 16, 32] if ctx.tier == "quick" else [4, 8, 16, 32, 64, 128]
     ctx.notes["rule"] = f"25 scalable families (k-fold repetition of each declaration/statement kind, depth-k nesting of each recursive construct) at k in {ks}; token-consumption counts of implementation and model must be equal and may at most double (x2.6) when k doubles; adversarial literal families for the lexer's regexes up to 20k characters under a wall-clock margin; non-trivial = every family point; distinct by (family, k)"
-    ctx.notes["thresholds"] = {"doubling_ratio_max": 2.6, "lexer_seconds_per_20k_chars": 3.0, "lexer_seconds_per_400_chars": 1.0}
+    ctx.notes["thresholds"] = {"doubling_ratio_max": 2.6, "lexer_cpu_seconds_floor_20k_chars": 3.0, "lexer_cpu_seconds_floor_400_chars": 1.0, "lexer_factor_over_identifier_run": 60}
     # known super-linear families: replay, report as known findings if still super-linear
     for f in ctx.findings:
         famname = f.get("family")
@@ -117,10 +117,23 @@ def run(ctx, b, broken):
             "wide-prefix-run": "L" * n + "'", "dots": "." * n, "string-concat-run": '"a" ' * (n // 4), "line-directive-run": "#line " + "1" * n + ' "f"\n',
             "pragma-run": "#pragma " + "x " * (n // 2) + "\n",
         }
-    # a few hundred characters must never take seconds; 20k characters get a wide linear margin
-    for n, limit in ((400, 1.0), (20000, 3.0)):
-        for name, text in lits_of(n).items():
+    # a few hundred characters must never take seconds; 20k characters get a wide linear margin.  CPU time is measured in a
+    # fresh subprocess and judged RELATIVE to a linear reference workload of the same size measured at the same moment (an
+    # identifier run), so that a loaded machine does not turn into an alarm; an over-limit measurement is repeated.
+    for n, floor in ((400, 1.0), (20000, 3.0)):
+        fams = lits_of(n)
+        base = min(lex_seconds(fams["ident-run"])[1] for _ in range(2)) + 0.01
+        ctx.count(f"lexer-baseline-{n}-ms", int(base * 1000))
+        for name, text in fams.items():
             out, dt = lex_seconds(text)
+            limit = max(floor, 60 * base)
+            if out == "TIMEOUT" or dt > limit:
+                for _ in range(2):
+                    base = min(base, lex_seconds(fams["ident-run"])[1] + 0.01)
+                    o2, d2 = lex_seconds(text)
+                    if o2 != "TIMEOUT" and d2 < dt:
+                        out, dt = o2, d2
+                limit = max(floor, 60 * base)
             ctx.evaluations += 1
             ctx.count(f"lexer-family-{n}:" + name)
             ctx.nontriv(("lex", name, n))
@@ -129,5 +142,5 @@ def run(ctx, b, broken):
                 if kf:
                     ctx.known(kf[0]["id"], kf[0]["what"])
                     continue
-                su.violation(text[:200] + f"... ({len(text)} chars)", f"lexing the {len(text)}-character family {name} took {dt:.1f}s (limit {limit}s)", {"family": name, "chars": n})
+                su.violation(text[:200] + f"... ({len(text)} chars)", f"lexing the {len(text)}-character family {name} took {dt:.1f}s of CPU (limit {limit:.1f}s = max({floor}s, 60 x the {base:.3f}s of an identifier run of the same length))", {"family": name, "chars": n})
     su.finish()
